@@ -462,7 +462,71 @@ class _FinditerToFindallSub:
             return tgt.id
         return None
 
+    def _callback_form(self, fn: ast.AST, body: List[ast.stmt]) -> Optional[List[ast.stmt]]:
+        """A = []; def cb(m): A.append(m.group(1)); return ""; T = RX.sub(cb, S)   ->   A = RX.findall(S); T = RX.sub("", S)"""
+        for ci, cb in enumerate(body):
+            if not (isinstance(cb, ast.FunctionDef) and not cb.decorator_list and len(cb.args.args) == 1 and not cb.args.vararg and not cb.args.kwarg
+                    and not cb.args.kwonlyargs and len(cb.body) == 2):
+                continue
+            m = cb.args.args[0].arg
+            b0, b1 = cb.body
+            if not (isinstance(b0, ast.Expr) and isinstance(b0.value, ast.Call) and isinstance(b0.value.func, ast.Attribute) and b0.value.func.attr == "append"
+                    and isinstance(b0.value.func.value, ast.Name) and len(b0.value.args) == 1 and ast.unparse(b0.value.args[0]) == f"{m}.group(1)"
+                    and isinstance(b1, ast.Return) and isinstance(b1.value, ast.Constant) and b1.value.value == ""):
+                continue
+            A = b0.value.func.value.id
+            inits = [j for j, st in enumerate(body[:ci]) if self._is_empty_list(st) == A]
+            if len(inits) != 1:
+                continue
+            if any(isinstance(n, ast.Name) and n.id == A for st in body[inits[0] + 1:ci] for n in ast.walk(st)):
+                continue
+            # the one use of cb: T = RX.sub(cb, S) / re.sub(PAT, cb, S), the next statement that mentions A or cb
+            use_at = None
+            for j in range(ci + 1, len(body)):
+                st = body[j]
+                names = {n.id for n in ast.walk(st) if isinstance(n, ast.Name)}
+                if cb.name in names:
+                    use_at = j
+                    break
+                if A in names:
+                    break
+            if use_at is None:
+                continue
+            st = body[use_at]
+            call = getattr(st, "value", None)
+            if not (isinstance(st, (ast.Assign, ast.AnnAssign)) and isinstance(call, ast.Call) and isinstance(call.func, ast.Attribute) and call.func.attr == "sub"
+                    and not call.keywords):
+                continue
+            if isinstance(call.func.value, ast.Name) and call.func.value.id == "re" and len(call.args) == 3:
+                rx, cbarg, src, via_re = call.args[0], call.args[1], call.args[2], True
+            elif len(call.args) == 2:
+                rx, cbarg, src, via_re = call.func.value, call.args[0], call.args[1], False
+            else:
+                continue
+            if not (isinstance(cbarg, ast.Name) and cbarg.id == cb.name and isinstance(src, ast.Name)):
+                continue
+            if len([n for n in ast.walk(fn) if isinstance(n, ast.Name) and n.id == cb.name]) != 1:
+                continue
+            import copy as _c
+            S = src.id
+            if via_re:
+                fa: ast.expr = ast.Call(ast.Attribute(ast.Name("re", ast.Load()), "findall", ast.Load()), [_c.deepcopy(rx), ast.Name(S, ast.Load())], [])
+            else:
+                fa = ast.Call(ast.Attribute(_c.deepcopy(rx), "findall", ast.Load()), [ast.Name(S, ast.Load())], [])
+            call.args[1 if via_re else 0] = ast.Constant("")
+            na = ast.Assign([ast.Name(A, ast.Store())], fa)
+            ast.copy_location(na, cb)
+            ast.fix_missing_locations(na)
+            ast.fix_missing_locations(st)
+            out = [x for j, x in enumerate(body) if j not in (inits[0], ci)]
+            out.insert(out.index(st), na)
+            return out
+        return None
+
     def _block(self, fn: ast.AST, body: List[ast.stmt]) -> Optional[List[ast.stmt]]:
+        cbf = self._callback_form(fn, body)
+        if cbf is not None:
+            return cbf
         for li, lp in enumerate(body):
             if not (isinstance(lp, ast.For) and not lp.orelse and isinstance(lp.target, ast.Name) and isinstance(lp.iter, ast.Call)
                     and isinstance(lp.iter.func, ast.Attribute) and lp.iter.func.attr == "finditer" and not lp.iter.keywords and len(lp.body) == 3):
@@ -695,6 +759,80 @@ class _InlineFilterGenerators:
                 b = getattr(n, fld, None)
                 if isinstance(b, list) and b and isinstance(b[0], ast.stmt):
                     setattr(n, fld, self._block(b, cls))
+        # list(g(a)) / tuple(g(a)) with g a one-loop filter/map generator: the comprehension it spells
+        outer = self
+
+        class _Lists(ast.NodeTransformer):
+            def visit_FunctionDef(self, node: ast.FunctionDef) -> Any:
+                return node if node is not fn else self.generic_visit(node)
+
+            def visit_Call(self, node: ast.Call) -> Any:
+                self.generic_visit(node)
+                if isinstance(node.func, ast.Name) and node.func.id in ("list", "tuple") and len(node.args) == 1 and not node.keywords \
+                        and isinstance(node.args[0], ast.Call):
+                    comp = outer._as_comprehension(node.args[0], cls)
+                    if comp is not None:
+                        new = comp if node.func.id == "list" else ast.Call(ast.Name("tuple", ast.Load()), [comp], [])
+                        ast.copy_location(new, node)
+                        ast.fix_missing_locations(new)
+                        return new
+                return node
+
+        _Lists().visit(fn)
+
+    def _as_comprehension(self, call: ast.Call, cls: Optional[str]) -> Optional[ast.ListComp]:
+        hit = self.lookup(call, cls)
+        if hit is None:
+            return None
+        g, recv = hit
+        nests = _chained_generator_shape(g)
+        if nests is None or len(nests) != 1 or len(nests[0]) != 1:
+            return None
+        lp = nests[0][0]
+        guards = lp.body[:-1]
+        if not all(isinstance(x, ast.If) and not x.orelse and len(x.body) == 1 and isinstance(x.body[0], ast.Continue) for x in guards):
+            return None
+        params = [a.arg for a in g.args.args]
+        args = list(call.args)
+        mapping: Dict[str, ast.expr] = {}
+        if recv is not None:
+            if not params:
+                return None
+            mapping[params[0]] = recv
+            params = params[1:]
+        if len(params) != len(args):
+            return None
+        # a parameter may be used once only unless the argument is a plain name / attribute chain (no double evaluation)
+        for p_, a_ in zip(params, args):
+            chain = a_
+            while isinstance(chain, ast.Attribute):
+                chain = chain.value
+            uses = [n for n in ast.walk(g) if isinstance(n, ast.Name) and n.id == p_]
+            if not isinstance(chain, ast.Name) and len(uses) > 1:
+                return None
+            mapping[p_] = a_
+        self.count += 1
+        tag = f"__g{self.count}_"
+        for n in ast.walk(g):
+            if isinstance(n, ast.Name) and isinstance(n.ctx, ast.Store) and n.id not in mapping:
+                mapping[n.id] = ast.Name(tag + n.id, ast.Load())
+        import copy as _c
+        rn = _Rename(mapping)
+        last = lp.body[-1]
+        if isinstance(last, ast.Expr):
+            yv, yc = last.value.value, None                  # type: ignore[attr-defined]
+        else:
+            yv, yc = last.body[0].value.value, last.test       # type: ignore[attr-defined]
+        if yv is None:
+            return None
+        ifs = [ast.UnaryOp(ast.Not(), rn.visit(_c.deepcopy(x.test))) for x in guards]       # type: ignore[attr-defined]
+        if yc is not None:
+            ifs.append(rn.visit(_c.deepcopy(yc)))
+        target = rn.visit(_c.deepcopy(lp.target))
+        for n in ast.walk(target):
+            if isinstance(n, (ast.Name, ast.Tuple, ast.List)):
+                n.ctx = ast.Store()
+        return ast.ListComp(rn.visit(_c.deepcopy(yv)), [ast.comprehension(target, rn.visit(_c.deepcopy(lp.iter)), ifs, 0)])
 
     def _block(self, body: List[ast.stmt], cls: Optional[str]) -> List[ast.stmt]:
         out: List[ast.stmt] = []
@@ -1180,6 +1318,22 @@ class Program:
                 finally:
                     self._fold_guard.discard(key)
             raise NotConst(expr.id)
+        if isinstance(expr, ast.Attribute) and isinstance(expr.value, ast.Name) and expr.value.id not in env:
+            # a constant of another module of the package read through the module object: tags.__all__
+            k, v = self.resolve(mod, expr.value.id)
+            if k == "module" and v in self.modules:
+                m2 = self.modules[v]
+                e2 = m2.const_expr(expr.attr)
+                if e2 is not None and not self.global_mutation_sites(m2.name, expr.attr):
+                    key = (m2.name, expr.attr)
+                    if key in self._fold_guard:
+                        raise NotConst(expr.attr)
+                    self._fold_guard.add(key)
+                    try:
+                        return self.fold(e2, m2)
+                    finally:
+                        self._fold_guard.discard(key)
+            raise NotConst("Attribute")
         if isinstance(expr, ast.Tuple):
             return tuple(self._fold_elts(expr.elts, mod, env))
         if isinstance(expr, ast.List):
